@@ -169,4 +169,9 @@ func init() {
 		}
 		return n
 	}
+	// LongPause: a long time passes = every armed timer expires
+	externals[VerifPkg+".LongPause"] = func(fr *frame, args []value) value {
+		externals[VerifPkg+".FireTimers"](fr, args)
+		return nil
+	}
 }
